@@ -64,13 +64,637 @@ theorem expandCapacity_spec (a : ArraySized) (m : Mem) (h : a.Inv) (hg : a.GrowO
           decide (a.size * a.dataLen ≤ a.buf.length)) = true := by
         simp [fresh, hsl, hsl2]
       rw [hchk]
-      trace_state
-      refine ⟨rfl, ⟨hdl, by omega, by omega, by simp [fresh], hnc1.2⟩, ?_, rfl, rfl, rfl, hnc1.1, ?_, rfl⟩
+      refine ⟨trivial, ?_, ?_, trivial, trivial, trivial, hnc1.1, ?_, trivial⟩
+      · unfold Inv; dsimp only
+        exact ⟨hdl, by omega, by omega, by simp [fresh], hnc1.2⟩
       · rw [abs_eq_elems, abs_eq_elems]
+        dsimp only
         apply elems_congr
         intro k hk
         rw [chunkAt_memcpy _ _ a.dataLen 0 0 (a.size * a.dataLen) 0 0 a.size k (by simp) (by simp) rfl
-          (by simp only [Buf.length_memcpy, fresh, List.length_replicate]; exact slot_le (by omega))]
+          (by simp only [fresh, List.length_replicate]; exact slot_le (by omega))]
         rw [if_pos (by omega)]
         simp
       · simpa using memSame_alloc_free m hal
+
+/-- the common prologue of `add`/`add_at`: `if (size >= capacity) expand_capacity` -/
+def ensureRoom (a : ArraySized) (m : Mem) : Stat × ArraySized × Mem :=
+  if a.size ≥ a.capacity then expandCapacity a m else (.ok, a, m)
+
+theorem ensureRoom_spec (a : ArraySized) (m : Mem) (h : a.Inv) (hg : a.GrowOk) :
+    ((a.ensureRoom m).1 = .ok ∧ (a.ensureRoom m).2.1.Inv ∧
+      (a.ensureRoom m).2.1.abs = a.abs ∧ (a.ensureRoom m).2.1.size = a.size ∧
+      (a.ensureRoom m).2.1.dataLen = a.dataLen ∧ (a.ensureRoom m).2.1.grow = a.grow ∧
+      a.capacity ≤ (a.ensureRoom m).2.1.capacity ∧ a.size < (a.ensureRoom m).2.1.capacity ∧
+      MemSame m (a.ensureRoom m).2.2) ∨
+    (((a.ensureRoom m).1 = .errAlloc ∨ (a.ensureRoom m).1 = .errMaxCapacity) ∧ (a.ensureRoom m).2.1 = a ∧
+      MemSame m (a.ensureRoom m).2.2 ∧ a.size = a.capacity ∧
+      ((a.ensureRoom m).1 = .errAlloc → m.alloc.1 = false) ∧
+      ((a.ensureRoom m).1 = .errMaxCapacity → a.capacity = CC_MAX_ELEMENTS)) := by
+  unfold ensureRoom
+  by_cases hfull : a.size ≥ a.capacity
+  · rw [if_pos hfull]
+    have hsz := h.2.2.1
+    rcases expandCapacity_spec a m h hg with ⟨h1, h2, h3, h4, h5, h6, h7, h8, _⟩ | ⟨h1, h2, h3, h4⟩ | ⟨h1, h2, h3, h4⟩
+    · left; exact ⟨h1, h2, h3, h4, h5, h6, by omega, by omega, h8⟩
+    · right; exact ⟨Or.inl h1, h2, h3, by omega, fun _ => h4, (fun hh => by rw [h1] at hh; cases hh)⟩
+    · right; exact ⟨Or.inr h1, h2, (by rw [h3]; exact MemSame.refl m), by omega,
+        (fun hh => by rw [h1] at hh; cases hh), fun _ => h4⟩
+  · rw [if_neg hfull]
+    left
+    exact ⟨rfl, h, rfl, rfl, rfl, rfl, Nat.le_refl _, (by dsimp only; omega), MemSame.refl m⟩
+
+/-! ### stores of whole elements -/
+theorem elems_store (b e : Buf Nat) (dl i n cap : Nat) (he : e.length = dl) (hn : n ≤ cap)
+    (hcap : cap * dl ≤ b.length) :
+    elems dl (b.memcpy (dl * i) e 0 dl) n = (elems dl b n).set i e := by
+  apply List.ext_getElem
+  · simp
+  · intro k h1 h2
+    have hk : k < n := by simpa using h1
+    rw [elems_getElem, List.getElem_set, elems_getElem]
+    rw [chunkAt_memcpy_elem b e dl i k he (Nat.le_trans (slot_le (by omega)) hcap)]
+    by_cases hik : i = k
+    · subst hik; simp
+    · rw [if_neg hik, if_neg (by omega)]
+
+theorem slot_in (a : ArraySized) (h : a.Inv) (k : Nat) (hk : k < a.capacity) :
+    a.dataLen * k + a.dataLen ≤ a.buf.length :=
+  Nat.le_trans (slot_le hk) h.2.2.2.1
+
+/-! ### add -/
+theorem add_eq (a : ArraySized) (e : Buf Nat) (m : Mem) :
+    a.add e m =
+      (if (a.ensureRoom m).1 ≠ .ok then a.ensureRoom m else
+       (.ok, { (a.ensureRoom m).2.1 with
+                buf := (a.ensureRoom m).2.1.buf.memcpy ((a.ensureRoom m).2.1.dataLen * (a.ensureRoom m).2.1.size) e 0 (a.ensureRoom m).2.1.dataLen,
+                size := (a.ensureRoom m).2.1.size + 1 },
+        (a.ensureRoom m).2.2.check ((a.ensureRoom m).2.1.dataLen * (a.ensureRoom m).2.1.size + (a.ensureRoom m).2.1.dataLen ≤ (a.ensureRoom m).2.1.buf.length))) := rfl
+
+/-- `add`: either the element is appended (and the invariant, element size, growth rule are kept,
+capacity does not shrink, the ledger is balanced, no fault), or the growth was refused and the
+whole array is exactly as before -/
+theorem add_spec (a : ArraySized) (e : Buf Nat) (m : Mem) (h : a.Inv) (hg : a.GrowOk)
+    (he : e.length = a.dataLen) :
+    ((a.add e m).1 = .ok ∧ (a.add e m).2.1.Inv ∧ (a.add e m).2.1.abs = a.abs ++ [e] ∧
+      (a.add e m).2.1.dataLen = a.dataLen ∧ (a.add e m).2.1.grow = a.grow ∧
+      a.capacity ≤ (a.add e m).2.1.capacity ∧ MemSame m (a.add e m).2.2) ∨
+    (((a.add e m).1 = .errAlloc ∨ (a.add e m).1 = .errMaxCapacity) ∧ (a.add e m).2.1 = a ∧
+      MemSame m (a.add e m).2.2 ∧ a.size = a.capacity ∧
+      ((a.add e m).1 = .errAlloc → m.alloc.1 = false) ∧
+      ((a.add e m).1 = .errMaxCapacity → a.capacity = CC_MAX_ELEMENTS)) := by
+  rw [add_eq]
+  rcases ensureRoom_spec a m h hg with ⟨h1, h2, h3, h4, h5, h6, h7, h8, h9⟩ | ⟨h1, h2, h3, h4, h5, h6⟩
+  · left
+    generalize a.ensureRoom m = r at *
+    obtain ⟨st, a', m'⟩ := r
+    dsimp only at *
+    subst h1
+    simp only [ne_eq, not_true_eq_false, if_false]
+    have hslot := slot_in a' h2 a'.size (by omega)
+    rw [decide_eq_true hslot]
+    refine ⟨trivial, ?_, ?_, h5, h6, h7, h9⟩
+    · obtain ⟨i1, i2, i3, i4, i5⟩ := h2
+      exact ⟨i1, i2, by dsimp only; omega, by simpa using i4, i5⟩
+    · rw [abs_eq_elems, ← h3, abs_eq_elems]
+      dsimp only
+      rw [elems_succ, elems_store _ _ _ _ _ a'.capacity (by omega) (by omega) h2.2.2.2.1]
+      rw [List.set_eq_of_length_le (by simp)]
+      rw [chunkAt_memcpy_elem _ _ _ _ _ (by omega) hslot]
+      simp
+  · right
+    have hne : (a.ensureRoom m).1 ≠ .ok := by
+      rcases h1 with h1 | h1 <;> rw [h1] <;> decide
+    rw [if_pos hne]
+    exact ⟨h1, h2, h3, h4, h5, h6⟩
+
+/-! ### add_at -/
+/-- opening a gap at `i` (memmove of the tail one slot up) and storing `e` there is `insertIdx` -/
+theorem elems_insert (b e : Buf Nat) (dl i n cap : Nat) (he : e.length = dl) (hi : i < n) (hn : n < cap)
+    (hcap : cap * dl ≤ b.length) :
+    elems dl ((b.memmove (dl * (i + 1)) (dl * i) ((n - i) * dl)).memcpy (dl * i) e 0 dl) (n + 1) =
+      (elems dl b n).insertIdx i e := by
+  apply List.ext_getElem?
+  intro k
+  rw [elems_getElem?, List.getElem?_insertIdx, elems_getElem?, elems_getElem?, elems_length]
+  by_cases hk : k < n + 1
+  · have hslot : dl * k + dl ≤ b.length := Nat.le_trans (slot_le (by omega)) hcap
+    rw [if_pos hk, chunkAt_memcpy_elem _ e dl i k he (by simpa using hslot)]
+    rw [chunkAt_memmove b dl _ _ _ (i + 1) i (n - i) k rfl rfl rfl hslot]
+    rcases Nat.lt_trichotomy k i with h | h | h
+    · rw [if_neg (by omega), if_neg (by omega), if_pos h, if_pos (by omega)]
+    · subst h; rw [if_pos rfl, if_neg (by omega), if_pos rfl, if_pos (by omega)]
+    · rw [if_neg (by omega), if_pos (by omega), if_neg (by omega), if_neg (by omega), if_pos (by omega)]
+      congr 2; omega
+  · rw [if_neg hk, if_neg (by omega), if_neg (by omega), if_neg (by omega)]
+
+theorem addAt_eq_mid (a : ArraySized) (e : Buf Nat) (index : Nat) (m : Mem) (hi : index < a.size) :
+    a.addAt e index m =
+      (if (a.ensureRoom m).1 ≠ .ok then a.ensureRoom m else
+       let a' := (a.ensureRoom m).2.1
+       let shift := (a'.size - index) * a'.dataLen
+       let m' := (a.ensureRoom m).2.2.check (a'.dataLen * (index + 1) + shift ≤ a'.buf.length && a'.dataLen * index + shift ≤ a'.buf.length)
+       let b := a'.buf.memmove (a'.dataLen * (index + 1)) (a'.dataLen * index) shift
+       (.ok, { a' with buf := b.memcpy (a'.dataLen * index) e 0 a'.dataLen, size := a'.size + 1 },
+        m'.check (a'.dataLen * index + a'.dataLen ≤ b.length))) := by
+  unfold addAt
+  rw [if_neg (by omega)]
+  have : ((a.size = 0 && index != 0) || decide (index > a.size - 1)) = false := by
+    simp; omega
+  rw [this]
+  rfl
+
+/-- `add_at` outside `[0, size]` is rejected and changes nothing at all -/
+theorem addAt_inert (a : ArraySized) (e : Buf Nat) (index : Nat) (m : Mem) (hi : a.size < index) :
+    a.addAt e index m = (.errOutOfRange, a, m) := by
+  unfold addAt
+  rw [if_neg (by omega)]
+  have : ((a.size = 0 && index != 0) || decide (index > a.size - 1)) = true := by
+    simp; omega
+  rw [this]; rfl
+
+/-- `add_at` at a position in `[0, size]`: the element is inserted there, or the growth was refused
+and the array is exactly as before -/
+theorem addAt_spec (a : ArraySized) (e : Buf Nat) (index : Nat) (m : Mem) (h : a.Inv) (hg : a.GrowOk)
+    (he : e.length = a.dataLen) (hi : index ≤ a.size) :
+    ((a.addAt e index m).1 = .ok ∧ (a.addAt e index m).2.1.Inv ∧
+      (a.addAt e index m).2.1.abs = a.abs.insertIdx index e ∧
+      (a.addAt e index m).2.1.dataLen = a.dataLen ∧ (a.addAt e index m).2.1.grow = a.grow ∧
+      a.capacity ≤ (a.addAt e index m).2.1.capacity ∧ MemSame m (a.addAt e index m).2.2) ∨
+    (((a.addAt e index m).1 = .errAlloc ∨ (a.addAt e index m).1 = .errMaxCapacity) ∧
+      (a.addAt e index m).2.1 = a ∧ MemSame m (a.addAt e index m).2.2 ∧ a.size = a.capacity ∧
+      ((a.addAt e index m).1 = .errAlloc → m.alloc.1 = false) ∧
+      ((a.addAt e index m).1 = .errMaxCapacity → a.capacity = CC_MAX_ELEMENTS)) := by
+  by_cases hend : index = a.size
+  · have : a.addAt e index m = a.add e m := by unfold addAt; rw [if_pos hend]
+    rw [this]
+    have hl : a.abs.insertIdx index e = a.abs ++ [e] := by
+      rw [hend]
+      have : a.abs.length = a.size := by simp [abs]
+      rw [← this, List.insertIdx_length_self]
+    rw [hl]
+    exact add_spec a e m h hg he
+  · have hlt : index < a.size := by omega
+    rw [addAt_eq_mid a e index m hlt]
+    rcases ensureRoom_spec a m h hg with ⟨h1, h2, h3, h4, h5, h6, h7, h8, h9⟩ | ⟨h1, h2, h3, h4, h5, h6⟩
+    · left
+      generalize a.ensureRoom m = r at *
+      obtain ⟨st, a', m'⟩ := r
+      dsimp only at *
+      subst h1
+      simp only [ne_eq, not_true_eq_false, if_false]
+      obtain ⟨i1, i2, i3, i4, i5⟩ := h2
+      have e1 : a'.dataLen * (index + 1) + (a'.size - index) * a'.dataLen = a'.dataLen * a'.size + a'.dataLen := by
+        rw [Nat.mul_comm (a'.size - index), ← Nat.mul_add, ← Nat.mul_succ]; congr 1; omega
+      have e2 : a'.dataLen * index + (a'.size - index) * a'.dataLen = a'.dataLen * a'.size := by
+        rw [Nat.mul_comm (a'.size - index), ← Nat.mul_add]; congr 1; omega
+      have s1 : a'.dataLen * a'.size + a'.dataLen ≤ a'.buf.length := Nat.le_trans (slot_le (by omega)) i4
+      have s2 : a'.dataLen * index + a'.dataLen ≤ a'.buf.length := Nat.le_trans (slot_le (by omega)) i4
+      have c1 : (decide (a'.dataLen * (index + 1) + (a'.size - index) * a'.dataLen ≤ a'.buf.length) &&
+          decide (a'.dataLen * index + (a'.size - index) * a'.dataLen ≤ a'.buf.length)) = true := by
+        rw [e1, e2]; simp; omega
+      rw [c1]
+      have c2 : decide (a'.dataLen * index + a'.dataLen ≤
+          (a'.buf.memmove (a'.dataLen * (index + 1)) (a'.dataLen * index) ((a'.size - index) * a'.dataLen)).length) = true := by
+        simpa using s2
+      rw [c2]
+      refine ⟨trivial, ?_, ?_, h5, h6, h7, h9⟩
+      · exact ⟨i1, i2, by dsimp only; omega, by simpa using i4, i5⟩
+      · rw [abs_eq_elems, ← h3, abs_eq_elems]
+        dsimp only
+        exact elems_insert a'.buf e a'.dataLen index a'.size a'.capacity (by omega) (by omega) (by omega) i4
+    · right
+      have hne : (a.ensureRoom m).1 ≠ .ok := by
+        rcases h1 with h1 | h1 <;> rw [h1] <;> decide
+      rw [if_pos hne]
+      exact ⟨h1, h2, h3, h4, h5, h6⟩
+
+/-! ### replace_at -/
+theorem replaceAt_inert (a : ArraySized) (e : Buf Nat) (index : Nat) (m : Mem) (hi : a.size ≤ index) :
+    a.replaceAt e index m = (.errOutOfRange, none, a, m) := by
+  unfold replaceAt; rw [if_pos hi]
+
+theorem abs_length (a : ArraySized) : a.abs.length = a.size := by simp [abs]
+
+theorem abs_getElem? (a : ArraySized) (k : Nat) :
+    a.abs[k]? = if k < a.size then some (a.chunk k) else none := elems_getElem? ..
+
+theorem replaceAt_spec (a : ArraySized) (e : Buf Nat) (index : Nat) (m : Mem) (h : a.Inv)
+    (he : e.length = a.dataLen) (hi : index < a.size) :
+    a.replaceAt e index m =
+      (.ok, a.abs[index]?, { a with buf := a.buf.memcpy (a.dataLen * index) e 0 a.dataLen }, m) ∧
+    (a.replaceAt e index m).2.2.1.Inv ∧ (a.replaceAt e index m).2.2.1.abs = a.abs.set index e := by
+  obtain ⟨i1, i2, i3, i4, i5⟩ := h
+  have s1 : a.dataLen * index + a.dataLen ≤ a.buf.length := Nat.le_trans (slot_le (by omega)) i4
+  have e1 : a.replaceAt e index m =
+      (.ok, a.abs[index]?, { a with buf := a.buf.memcpy (a.dataLen * index) e 0 a.dataLen }, m) := by
+    unfold replaceAt
+    rw [if_neg (by omega), decide_eq_true s1, abs_getElem?, if_pos hi]
+    rfl
+  rw [e1]
+  refine ⟨rfl, ⟨i1, i2, i3, by simpa using i4, i5⟩, ?_⟩
+  rw [abs_eq_elems, abs_eq_elems]
+  exact elems_store a.buf e a.dataLen index a.size a.capacity he i3 i4
+
+/-! ### swap_at -/
+/-- the index permutation of a swap -/
+def sw (i1 i2 k : Nat) : Nat := if k = i1 then i2 else if k = i2 then i1 else k
+
+theorem mul_add_inj {dl a b s t : Nat} (hs : s < dl) (ht : t < dl) : dl * a + s = dl * b + t ↔ a = b ∧ s = t := by
+  constructor
+  · intro h
+    have h1 : a ≤ b := le_of_mul_le_mul_add (dl := dl) (j := t) ht (by omega)
+    have h2 : b ≤ a := le_of_mul_le_mul_add (dl := dl) (j := s) hs (by omega)
+    have : a = b := by omega
+    subst this
+    exact ⟨rfl, by omega⟩
+  · rintro ⟨rfl, rfl⟩; rfl
+
+/-- after `t` iterations the first `t` bytes of the two elements are exchanged -/
+theorem swapLoop_spec (dl i1 i2 : Nat) (b0 : Buf Nat) (m : Mem) (cap : Nat) (h1 : i1 < cap) (h2 : i2 < cap)
+    (hcap : cap * dl ≤ b0.length) :
+    ∀ (f t : Nat) (b : Buf Nat), t + f = dl → b.length = b0.length →
+      (∀ k j, k < cap → j < dl → b.get (dl * k + j) =
+        if j < t then b0.get (dl * sw i1 i2 k + j) else b0.get (dl * k + j)) →
+      (swapLoop dl i1 i2 f t b m).2 = m ∧ (swapLoop dl i1 i2 f t b m).1.length = b0.length ∧
+      (∀ k, k < cap → chunkAt dl (swapLoop dl i1 i2 f t b m).1 k = chunkAt dl b0 (sw i1 i2 k)) := by
+  intro f
+  induction f with
+  | zero =>
+    intro t b ht hl hinv
+    refine ⟨rfl, hl, ?_⟩
+    intro k hk
+    apply chunkAt_congr
+    intro j hj
+    have := hinv k j hk hj
+    rw [if_pos (by omega)] at this
+    exact this
+  | succ f ih =>
+    intro t b ht hl hinv
+    have htl : t < dl := by omega
+    have sl1 : dl * i1 + dl ≤ b.length := by rw [hl]; exact Nat.le_trans (slot_le h1) hcap
+    have sl2 : dl * i2 + dl ≤ b.length := by rw [hl]; exact Nat.le_trans (slot_le h2) hcap
+    have c : (decide (dl * i1 + t < b.length) && decide (dl * i2 + t < b.length)) = true := by
+      simp; omega
+    unfold swapLoop
+    rw [c]
+    simp only [Mem.check_true]
+    apply ih (t + 1) _ (by omega) (by simpa using hl)
+    intro k j hk hj
+    have v1 := hinv i1 t h1 htl
+    have v2 := hinv i2 t h2 htl
+    rw [if_neg (Nat.lt_irrefl t)] at v1 v2
+    have vk := hinv k j hk hj
+    rw [Buf.get_put, Buf.get_put, Buf.length_put]
+    simp only [mul_add_inj htl hj]
+    rw [v1, v2, vk]
+    have l1 : dl * i1 + t < b.length := by omega
+    have l2 : dl * i2 + t < b.length := by omega
+    simp only [l1, l2, and_true]
+    unfold sw
+    by_cases etj : t = j
+    · subst etj
+      by_cases ek2 : i2 = k
+      · subst ek2
+        simp only [and_self, if_true, Nat.lt_succ_self]
+        by_cases e12 : i2 = i1
+        · rw [if_pos e12, e12]
+        · rw [if_neg e12]
+      · by_cases ek1 : i1 = k
+        · subst ek1
+          have : ¬ (i2 = i1) := ek2
+          simp [this]
+        · have n1 : ¬ (k = i1) := fun hh => ek1 hh.symm
+          have n2 : ¬ (k = i2) := fun hh => ek2 hh.symm
+          simp [ek1, ek2, n1, n2]
+    · have : (j < t + 1) = (j < t) := by apply propext; omega
+      simp [etj, this]
+
+theorem swapAt_inert (a : ArraySized) (i1 i2 : Nat) (m : Mem) (hi : a.size ≤ i1 ∨ a.size ≤ i2) :
+    a.swapAt i1 i2 m = (.errOutOfRange, a, m) := by
+  unfold swapAt
+  have : (decide (i1 ≥ a.size) || decide (i2 ≥ a.size)) = true := by simp; omega
+  rw [this]; rfl
+
+theorem swapAt_spec (a : ArraySized) (i1 i2 : Nat) (m : Mem) (h : a.Inv) (h1 : i1 < a.size) (h2 : i2 < a.size) :
+    (a.swapAt i1 i2 m).1 = .ok ∧ (a.swapAt i1 i2 m).2.2 = m ∧ (a.swapAt i1 i2 m).2.1.Inv ∧
+    (a.swapAt i1 i2 m).2.1.abs = (a.abs.set i1 (a.chunk i2)).set i2 (a.chunk i1) ∧
+    (a.swapAt i1 i2 m).2.1.dataLen = a.dataLen ∧ (a.swapAt i1 i2 m).2.1.grow = a.grow ∧
+    (a.swapAt i1 i2 m).2.1.capacity = a.capacity ∧ (a.swapAt i1 i2 m).2.1.size = a.size := by
+  obtain ⟨j1, j2, j3, j4, j5⟩ := h
+  have hs := swapLoop_spec a.dataLen i1 i2 a.buf m a.capacity (by omega) (by omega) j4 a.dataLen 0 a.buf
+    (by omega) rfl (by intro k j _ _; simp)
+  unfold swapAt
+  have : (decide (i1 ≥ a.size) || decide (i2 ≥ a.size)) = false := by simp; omega
+  rw [this]
+  simp only [Bool.false_eq_true, if_false]
+  refine ⟨trivial, hs.1, ⟨j1, j2, j3, by rw [hs.2.1]; exact j4, j5⟩, ?_, trivial, trivial, trivial, trivial⟩
+  rw [abs_eq_elems, abs_eq_elems]
+  dsimp only
+  apply List.ext_getElem
+  · simp
+  · intro k hk1 hk2
+    have hk : k < a.size := by simpa using hk1
+    rw [elems_getElem, hs.2.2 k (by omega)]
+    simp only [List.getElem_set, elems_getElem, chunk, sw]
+    by_cases e2 : i2 = k
+    · subst e2
+      by_cases e1 : i2 = i1
+      · subst e1; simp
+      · simp [e1]
+    · by_cases e1 : i1 = k
+      · subst e1; simp [e2]
+      · have n1 : ¬ (k = i1) := fun hh => e1 hh.symm
+        have n2 : ¬ (k = i2) := fun hh => e2 hh.symm
+        simp [e1, e2, n1, n2]
+
+/-! ### remove_at, remove_last, remove_all -/
+/-- closing the gap at `i` (memmove of the tail one slot down) is `eraseIdx` -/
+theorem elems_erase (b : Buf Nat) (dl i n cap : Nat) (hi : i < n) (hn : n ≤ cap) (hcap : cap * dl ≤ b.length) :
+    elems dl (b.memmove (dl * i) (dl * (i + 1)) ((n - 1 - i) * dl)) (n - 1) = (elems dl b n).eraseIdx i := by
+  apply List.ext_getElem?
+  intro k
+  rw [elems_getElem?, List.getElem?_eraseIdx, elems_getElem?, elems_getElem?]
+  by_cases hk : k < n - 1
+  · have hslot : dl * k + dl ≤ b.length := Nat.le_trans (slot_le (by omega)) hcap
+    rw [if_pos hk, chunkAt_memmove b dl _ _ _ i (i + 1) (n - 1 - i) k rfl rfl rfl hslot]
+    by_cases hki : k < i
+    · rw [if_neg (by omega), if_pos hki, if_pos (by omega)]
+    · rw [if_pos (by omega), if_neg hki, if_pos (by omega)]
+      congr 2; omega
+  · rw [if_neg hk]
+    by_cases hki : k < i
+    · omega
+    · rw [if_neg hki, if_neg (by omega)]
+
+theorem removeShift_spec (a : ArraySized) (index : Nat) (m : Mem) (h : a.Inv) (hi : index < a.size) :
+    (a.removeShift index m).2 = m ∧ (a.removeShift index m).1.Inv ∧
+    (a.removeShift index m).1.abs = a.abs.eraseIdx index ∧
+    (a.removeShift index m).1.dataLen = a.dataLen ∧ (a.removeShift index m).1.grow = a.grow ∧
+    (a.removeShift index m).1.capacity = a.capacity ∧ (a.removeShift index m).1.size = a.size - 1 := by
+  obtain ⟨j1, j2, j3, j4, j5⟩ := h
+  unfold removeShift
+  by_cases hl : index ≠ a.size - 1
+  · rw [if_pos hl]
+    have e1 : a.dataLen * index + (a.size - 1 - index) * a.dataLen ≤ a.buf.length := by
+      have : a.dataLen * index + (a.size - 1 - index) * a.dataLen = (a.size - 1) * a.dataLen := by
+        rw [Nat.mul_comm (a.size - 1 - index), ← Nat.mul_add, Nat.mul_comm]; congr 1; omega
+      rw [this]; exact Nat.le_trans (slots_le (by omega)) j4
+    have e2 : a.dataLen * (index + 1) + (a.size - 1 - index) * a.dataLen ≤ a.buf.length := by
+      have : a.dataLen * (index + 1) + (a.size - 1 - index) * a.dataLen = a.size * a.dataLen := by
+        rw [Nat.mul_comm (a.size - 1 - index), ← Nat.mul_add, Nat.mul_comm]; congr 1; omega
+      rw [this]; exact Nat.le_trans (slots_le j3) j4
+    have c : (decide (a.dataLen * index + (a.size - 1 - index) * a.dataLen ≤ a.buf.length) &&
+        decide (a.dataLen * (index + 1) + (a.size - 1 - index) * a.dataLen ≤ a.buf.length)) = true := by
+      simp [e1, e2]
+    dsimp only
+    rw [c]
+    refine ⟨rfl, ⟨j1, j2, by dsimp only; omega, by simpa using j4, j5⟩, ?_, rfl, rfl, rfl, rfl⟩
+    rw [abs_eq_elems, abs_eq_elems]
+    exact elems_erase a.buf a.dataLen index a.size a.capacity hi j3 j4
+  · rw [if_neg hl]
+    have hl' : index = a.size - 1 := by omega
+    refine ⟨rfl, ⟨j1, j2, by dsimp only; omega, j4, j5⟩, ?_, rfl, rfl, rfl, rfl⟩
+    rw [abs_eq_elems, abs_eq_elems]
+    dsimp only
+    apply List.ext_getElem?
+    intro k
+    rw [elems_getElem?, List.getElem?_eraseIdx, elems_getElem?, elems_getElem?]
+    by_cases hk : k < a.size - 1
+    · rw [if_pos hk, if_pos (by omega), if_pos (by omega)]
+    · rw [if_neg hk]
+      by_cases hki : k < index
+      · omega
+      · rw [if_neg hki, if_neg (by omega)]
+
+theorem removeAt_inert (a : ArraySized) (index : Nat) (m : Mem) (hi : a.size ≤ index) :
+    a.removeAt index m = (.errOutOfRange, none, a, m) := by
+  unfold removeAt; rw [if_pos hi]
+
+theorem removeAt_spec (a : ArraySized) (index : Nat) (m : Mem) (h : a.Inv) (hi : index < a.size) :
+    (a.removeAt index m).1 = .ok ∧ (a.removeAt index m).2.1 = a.abs[index]? ∧
+    (a.removeAt index m).2.2.2 = m ∧ (a.removeAt index m).2.2.1.Inv ∧
+    (a.removeAt index m).2.2.1.abs = a.abs.eraseIdx index ∧
+    (a.removeAt index m).2.2.1.dataLen = a.dataLen ∧ (a.removeAt index m).2.2.1.grow = a.grow ∧
+    (a.removeAt index m).2.2.1.capacity = a.capacity ∧ (a.removeAt index m).2.2.1.size = a.size - 1 := by
+  have s1 : a.dataLen * index + a.dataLen ≤ a.buf.length := slot_in a h index (by have := h.2.2.1; omega)
+  have hs := removeShift_spec a index m h hi
+  unfold removeAt
+  rw [if_neg (by omega), decide_eq_true s1]
+  simp only [Mem.check_true]
+  refine ⟨trivial, ?_, hs.1, hs.2.1, hs.2.2.1, hs.2.2.2.1, hs.2.2.2.2.1, hs.2.2.2.2.2.1, hs.2.2.2.2.2.2⟩
+  rw [abs_getElem?, if_pos hi]
+
+theorem wdec_pos (x : Nat) (h : 0 < x) : wdec x = x - 1 := by
+  unfold wdec; rw [if_neg (by omega)]
+
+theorem sizeMax_gt (a : ArraySized) (h : a.Inv) : a.size < sizeMax := by
+  have := h.2.2.1; have := h.2.2.2.2; unfold sizeMax; omega
+
+/-- `remove_last` on an empty array: `size - 1` wraps to `SIZE_MAX`, which is rejected -/
+theorem removeLast_inert (a : ArraySized) (m : Mem) (h : a.Inv) (h0 : a.size = 0) :
+    a.removeLast m = (.errOutOfRange, none, a, m) := by
+  unfold removeLast
+  apply removeAt_inert
+  have := sizeMax_gt a h
+  unfold wdec; rw [if_pos h0]; omega
+
+theorem removeLast_spec (a : ArraySized) (m : Mem) (h : a.Inv) (h0 : 0 < a.size) :
+    (a.removeLast m).1 = .ok ∧ (a.removeLast m).2.1 = a.abs.getLast? ∧
+    (a.removeLast m).2.2.2 = m ∧ (a.removeLast m).2.2.1.Inv ∧
+    (a.removeLast m).2.2.1.abs = a.abs.dropLast ∧
+    (a.removeLast m).2.2.1.dataLen = a.dataLen ∧ (a.removeLast m).2.2.1.grow = a.grow ∧
+    (a.removeLast m).2.2.1.capacity = a.capacity := by
+  unfold removeLast
+  rw [wdec_pos _ h0]
+  have hs := removeAt_spec a (a.size - 1) m h (by omega)
+  refine ⟨hs.1, ?_, hs.2.2.1, hs.2.2.2.1, ?_, hs.2.2.2.2.2.1, hs.2.2.2.2.2.2.1, hs.2.2.2.2.2.2.2.1⟩
+  · rw [hs.2.1, List.getLast?_eq_getElem?, abs_length]
+  · rw [hs.2.2.2.2.1, ← List.eraseIdx_length_sub_one, abs_length]
+
+theorem removeAll_spec (a : ArraySized) (h : a.Inv) : a.removeAll.Inv ∧ a.removeAll.abs = [] := by
+  obtain ⟨j1, j2, j3, j4, j5⟩ := h
+  exact ⟨⟨j1, j2, Nat.zero_le _, j4, j5⟩, by simp [removeAll, abs]⟩
+
+/-! ### get_at, get_last, peek -/
+theorem getAt_spec (a : ArraySized) (index : Nat) (m : Mem) (h : a.Inv) :
+    a.getAt index m = (if index < a.size then (.ok, a.abs[index]?, m) else (.errOutOfRange, none, m)) := by
+  unfold getAt
+  by_cases hi : index < a.size
+  · have s1 := slot_in a h index (by have := h.2.2.1; omega)
+    rw [if_neg (by omega), if_pos hi, decide_eq_true s1, abs_getElem?, if_pos hi]; rfl
+  · rw [if_pos (by omega), if_neg hi]
+
+theorem peek_spec (a : ArraySized) (index : Nat) (m : Mem) : a.peek index m = a.getAt index m := rfl
+
+theorem getLast_spec (a : ArraySized) (m : Mem) (h : a.Inv) :
+    a.getLast m = (if a.abs = [] then (.errValueNotFound, none, m) else (.ok, a.abs.getLast?, m)) := by
+  unfold getLast
+  by_cases h0 : a.size = 0
+  · rw [if_pos h0, if_pos]
+    simp [abs, h0]
+  · rw [if_neg h0, getAt_spec a _ m h, if_pos (by omega), if_neg]
+    · rw [List.getLast?_eq_getElem?, abs_length]
+    · intro hc
+      have := abs_length a
+      rw [hc] at this
+      simp at this; omega
+
+/-! ### index_of, contains, remove -/
+theorem chunkAt_eq_iff (dl : Nat) (b e : Buf Nat) (i : Nat) (he : e.length = dl) :
+    chunkAt dl b i = e ↔ ∀ t, t < dl → b.get (dl * i + t) = e.get t := by
+  constructor
+  · intro h t ht
+    rw [← h, ← chunkAt_getElem dl b i t (by simpa using ht)]
+    simp [Buf.get, List.getD_eq_getElem?_getD, ht]
+  · intro h
+    apply List.ext_getElem
+    · simp [he]
+    · intro t h1 h2
+      rw [chunkAt_getElem, h t (by simpa using h1)]
+      simp [Buf.get, List.getD_eq_getElem?_getD, h2]
+
+/-- the byte comparison loop started at byte `j` answers whether bytes `j …` of element `i`
+equal those of `e`; it reads only inside the buffer -/
+theorem cmpLoop_spec (a : ArraySized) (e : Buf Nat) (i : Nat) (m : Mem)
+    (hslot : a.dataLen * i + a.dataLen ≤ a.buf.length) :
+    ∀ (f j : Nat), j + f = a.dataLen → 0 < f →
+      (cmpLoop a e i f j m).2 = m ∧
+      ((cmpLoop a e i f j m).1 = true ↔ ∀ t, j ≤ t → t < a.dataLen → a.buf.get (a.dataLen * i + t) = e.get t) := by
+  intro f
+  induction f with
+  | zero => intro j _ hf; omega
+  | succ f ih =>
+    intro j hj _
+    unfold cmpLoop
+    have c : decide (a.dataLen * i + j < a.buf.length) = true := by simp; omega
+    rw [c]
+    simp only [Mem.check_true]
+    by_cases hb : a.buf.get (a.dataLen * i + j) = e.get j
+    · have : (a.buf.get (a.dataLen * i + j) != e.get j) = false := by simp [hb]
+      rw [this]
+      simp only [Bool.false_eq_true, if_false]
+      by_cases hl : j = a.dataLen - 1
+      · rw [if_pos hl]
+        refine ⟨rfl, ?_⟩
+        simp only [true_iff]
+        intro t h1 h2
+        have : t = j := by omega
+        subst this; exact hb
+      · rw [if_neg hl]
+        have := ih (j + 1) (by omega) (by omega)
+        refine ⟨this.1, ?_⟩
+        rw [this.2]
+        constructor
+        · intro hh t h1 h2
+          by_cases etj : t = j
+          · subst etj; exact hb
+          · exact hh t (by omega) h2
+        · intro hh t h1 h2
+          exact hh t (by omega) h2
+    · have : (a.buf.get (a.dataLen * i + j) != e.get j) = true := by simp [hb]
+      rw [this]
+      simp only [if_true]
+      refine ⟨trivial, ?_⟩
+      simp only [Bool.false_eq_true, false_iff]
+      intro hh
+      exact hb (hh j (Nat.le_refl _) (by omega))
+
+theorem cmpLoop_eq (a : ArraySized) (e : Buf Nat) (i : Nat) (m : Mem) (h : a.Inv) (hi : i < a.capacity)
+    (he : e.length = a.dataLen) :
+    a.cmpLoop e i a.dataLen 0 m = (decide (a.chunk i = e), m) := by
+  have hs := cmpLoop_spec a e i m (slot_in a h i hi) a.dataLen 0 (by omega) h.1
+  apply Prod.ext
+  · apply Bool.eq_iff_iff.2
+    rw [hs.2, decide_eq_true_eq]
+    have := chunkAt_eq_iff a.dataLen a.buf e i he
+    unfold chunk
+    rw [this]
+    constructor
+    · intro hh t ht; exact hh t (Nat.zero_le _) ht
+    · intro hh t _ ht; exact hh t ht
+  · exact hs.1
+
+/-- elements `i, i+1, …, i+f-1` -/
+def elemsFrom (a : ArraySized) (i f : Nat) : List (List Nat) := (List.range' i f).map a.chunk
+
+theorem abs_eq_elemsFrom (a : ArraySized) : a.abs = a.elemsFrom 0 a.size := by
+  simp [abs, elemsFrom, List.range_eq_range']
+
+theorem indexOfLoop_spec (a : ArraySized) (e : Buf Nat) (m : Mem) (h : a.Inv) (he : e.length = a.dataLen) :
+    ∀ (f i : Nat), i + f ≤ a.capacity →
+      a.indexOfLoop e f i m = ((Spec.SSeq.indexOf (a.elemsFrom i f) e).map (· + i), m) := by
+  intro f
+  induction f with
+  | zero => intro i _; simp [indexOfLoop, elemsFrom, Spec.SSeq.indexOf]
+  | succ f ih =>
+    intro i hi
+    unfold indexOfLoop
+    rw [cmpLoop_eq a e i m h (by omega) he]
+    simp only [elemsFrom, List.range'_succ, List.map_cons, Spec.SSeq.indexOf]
+    by_cases hc : a.chunk i = e
+    · simp [hc]
+    · simp only [hc, decide_false, Bool.false_eq_true, if_false]
+      rw [ih (i + 1) (by omega)]
+      simp only [elemsFrom, Option.map_map]
+      congr 1
+      apply congrArg (fun g => Option.map g _)
+      funext x; simp; omega
+
+theorem indexOf_spec (a : ArraySized) (e : Buf Nat) (m : Mem) (h : a.Inv) (he : e.length = a.dataLen) :
+    a.indexOf e m = ((Spec.SSeq.indexOfSt a.abs e).1, (Spec.SSeq.indexOfSt a.abs e).2, m) := by
+  unfold indexOf
+  rw [indexOfLoop_spec a e m h he a.size 0 (by have := h.2.2.1; omega), ← abs_eq_elemsFrom]
+  unfold Spec.SSeq.indexOfSt
+  cases Spec.SSeq.indexOf a.abs e <;> simp
+
+theorem containsLoop_spec (a : ArraySized) (e : Buf Nat) (m : Mem) (h : a.Inv) (he : e.length = a.dataLen) :
+    ∀ (f i o : Nat), i + f ≤ a.capacity →
+      a.containsLoop e f i o m = (o + Spec.SSeq.contains (a.elemsFrom i f) e, m) := by
+  intro f
+  induction f with
+  | zero => intro i o _; simp [containsLoop, elemsFrom, Spec.SSeq.contains]
+  | succ f ih =>
+    intro i o hi
+    unfold containsLoop
+    rw [cmpLoop_eq a e i m h (by omega) he]
+    dsimp only
+    rw [ih (i + 1) _ (by omega)]
+    simp only [elemsFrom, List.range'_succ, List.map_cons, Spec.SSeq.contains, List.filter_cons]
+    by_cases hc : a.chunk i = e
+    · simp [hc]; omega
+    · simp [hc]
+
+theorem contains_spec (a : ArraySized) (e : Buf Nat) (m : Mem) (h : a.Inv) (he : e.length = a.dataLen) :
+    a.contains e m = (Spec.SSeq.contains a.abs e, m) := by
+  unfold contains
+  rw [containsLoop_spec a e m h he a.size 0 0 (by have := h.2.2.1; omega), ← abs_eq_elemsFrom]
+  simp
+
+theorem indexOf_lt (xs : List (List Nat)) (e : List Nat) (k : Nat) (h : Spec.SSeq.indexOf xs e = some k) :
+    k < xs.length := by
+  induction xs generalizing k with
+  | nil => simp [Spec.SSeq.indexOf] at h
+  | cons y ys ih =>
+    simp only [Spec.SSeq.indexOf] at h
+    split at h
+    · simp at h; subst h; simp
+    · cases hh : Spec.SSeq.indexOf ys e with
+      | none => simp [hh] at h
+      | some j => simp [hh] at h; subst h; have := ih j hh; simp; omega
+
+theorem remove_spec (a : ArraySized) (e : Buf Nat) (m : Mem) (h : a.Inv) (he : e.length = a.dataLen) :
+    (a.remove e m).1 = (Spec.SSeq.remove a.abs e).1 ∧ (a.remove e m).2.2 = m ∧ (a.remove e m).2.1.Inv ∧
+    (a.remove e m).2.1.abs = (Spec.SSeq.remove a.abs e).2 ∧
+    ((a.remove e m).1 ≠ .ok → (a.remove e m).2.1 = a) ∧
+    (a.remove e m).2.1.dataLen = a.dataLen ∧ (a.remove e m).2.1.grow = a.grow ∧
+    (a.remove e m).2.1.capacity = a.capacity := by
+  unfold remove Spec.SSeq.remove
+  rw [indexOf_spec a e m h he]
+  unfold Spec.SSeq.indexOfSt
+  cases hk : Spec.SSeq.indexOf a.abs e with
+  | none => exact ⟨rfl, rfl, h, rfl, fun _ => rfl, rfl, rfl, rfl⟩
+  | some k =>
+    have hlt : k < a.size := by have := indexOf_lt _ _ _ hk; rwa [abs_length] at this
+    have hs := removeShift_spec a k m h hlt
+    exact ⟨rfl, hs.1, hs.2.1, hs.2.2.1, fun hh => absurd rfl hh, hs.2.2.2.1, hs.2.2.2.2.1, hs.2.2.2.2.2.1⟩
